@@ -92,6 +92,21 @@ fn boundary_values() -> Vec<BV> {
         // 30 elements alternating int / string
         let v: Vec<Value> = (0..30).map(|k| if k % 2 == 0 { Value::Int(30 - k) } else { s(if k % 4 == 1 { "b" } else { "a" }) }).collect();
         push(Some(Value::array(v)), "array 30 alternating int/str");
+        // 33 elements mixing ints and floats with NaNs of BOTH signs and infinities (total-order traps)
+        let v: Vec<Value> = (0..33)
+            .map(|k| match k % 6 {
+                0 => Value::Int(17 - k),
+                1 => Value::Float(-f64::NAN),
+                2 => Value::Float((k as f64) / 3.0 - 4.0),
+                3 => Value::Float(f64::NAN),
+                4 => Value::Int(k),
+                _ => Value::Float(if k % 12 == 5 { f64::INFINITY } else { f64::NEG_INFINITY }),
+            })
+            .collect();
+        push(Some(Value::array(v)), "array 33 mixed int/float with +NaN, -NaN, +-inf");
+        // 25 floats with negative NaNs only
+        let v: Vec<Value> = (0..25).map(|k| if k % 4 == 1 { Value::Float(-f64::NAN) } else { Value::Float(((k * 5) % 7) as f64 - 3.0) }).collect();
+        push(Some(Value::array(v)), "array 25 floats with -NaN");
     }
     push(Some(mk_map(vec![])), "map {}");
     push(Some(mk_map(vec![("a", Value::Int(1))])), "map {a:1}");
